@@ -1992,7 +1992,8 @@ def _norm_default(x):
         return 0.0
     if _blas_is_applicable(x.data):
         nrm2 = scipy.linalg.blas.get_blas_funcs('nrm2', dtype=x.dtype)
-        norm = partial(nrm2, n=native(x.size))
+        # `x.size` is 0 for shape (), the array itself has one entry
+        norm = partial(nrm2, n=native(x.data.size))
     else:
         norm = np.linalg.norm
     return norm(x.data.ravel())
